@@ -16,6 +16,7 @@
 -- models: pkg/kfake/persist.go:Cluster.loadGroupsLog
 -- models: pkg/kfake/persist.go:Cluster.loadPIDsLog
 -- models: pkg/kfake/persist.go:truncateLogFile
+-- models: pkg/kfake/persist.go:Cluster.loadSessionState
 
 Parts
  1. file system `path ↦ (synced bytes, unsynced tail)`, operations, crash;
@@ -356,6 +357,14 @@ def loadPartition (crc : Bytes → Nat) (segs : List (Nat × Bytes × Option Byt
       { batches := bs, hwm := l.1.last + 1, lso := l.1.last + 1, start := f.1.first, aborted := fullReplayAborted bs }
     | _, _ => {}
 
+/-- `loadSessionState`, in-progress transactions (session_state.json exists only after a clean Close): every restored
+transaction re-registers its first offset per partition and the partition's LSO is recalculated from those alone
+(`recalculateLSO`: the minimum); partitions without a restored transaction keep what `loadPartition` gave. -/
+def sessionLso (firsts : List Nat) (lso : Nat) : Nat :=
+  match firsts with
+  | [] => lso
+  | f :: r => r.foldl min f
+
 /-- group log entry meaning (annotation). -/
 inductive GEntry where
   | commit (g tp : String) (off : Int)
@@ -452,5 +461,63 @@ def LogBounds : List LogGen → List Nat → Prop
   | [], [] => True
   | g :: gs, m :: ms => g.k / 2 ≤ m ∧ m ≤ g.k / 2 + 1 ∧ LogBounds gs ms
   | _, _ => False
+
+/-! ### partition snapshots over lineages (record level)
+
+`snapshot.json` is written only by a clean Close (`savePartition`) and never refreshed while the broker runs. At
+start-up `loadPartition` uses it only if `snapshotMatchesSegments`: same number of segment files and, per file, the
+recorded size EQUAL to the file's current size; otherwise the partition is fully replayed. -/
+
+/-- a complete batch on disk: records, bytes -/
+structure RB where
+  nrec : Nat
+  size : Nat
+deriving Repr, DecidableEq
+
+def rbBytes (l : List RB) : Nat := (l.map (·.size)).sum
+def rbRecs (l : List RB) : Nat := (l.map (·.nrec)).sum
+
+/-- one partition directory: the complete durable batches per segment file (files may be empty), torn bytes at the end
+of the last file, and the snapshot of the last clean Close (recorded segment sizes, high watermark). -/
+structure PDisk where
+  segs : List (List RB) := []
+  junk : Nat := 0
+  snap : Option (List Nat × Nat) := none
+deriving Repr, DecidableEq
+
+def addLast : List Nat → Nat → List Nat
+  | [], j => if j = 0 then [] else [j]
+  | [x], j => [x + j]
+  | x :: y :: r, j => x :: addLast (y :: r) j
+
+/-- what `Stat` reports for the segment files -/
+def PDisk.sizes (d : PDisk) : List Nat := addLast (d.segs.map rbBytes) d.junk
+/-- what a full replay recovers -/
+def PDisk.count (d : PDisk) : Nat := rbRecs d.segs.flatten
+
+/-- `loadPartition`: the snapshot is used iff there are segment files and the recorded sizes equal the current ones
+(`accept` is the comparison, `(· = ·)` in the code); then HWM = min(snapshot HWM, end of the loaded batches). -/
+def PDisk.recoverHwmWith (accept : List Nat → List Nat → Bool) (d : PDisk) : Nat :=
+  match d.snap with
+  | some (sz, h) => if !d.sizes.isEmpty && accept sz d.sizes then min h d.count else d.count
+  | none => d.count
+
+def PDisk.recoverHwm (d : PDisk) : Nat := d.recoverHwmWith (fun a b => decide (a = b))
+
+/-- lineage steps. `append`: an acknowledged (written, synced) batch, in whatever segment layout results (same file or
+after a roll). `crash`: the process dies; the image keeps the complete batches (any layout with the same content, e.g.
+a freshly rolled empty file) and `j` torn bytes. `restart`: start-up truncates the torn bytes. `close`: clean Close
+writes the snapshot of the non-empty segments. -/
+inductive PStep : PDisk → PDisk → Prop
+  | append (d : PDisk) (b : RB) (segs' : List (List RB)) : d.junk = 0 → 0 < b.size → segs'.flatten = d.segs.flatten ++ [b] →
+      PStep d { d with segs := segs' }
+  | crash (d : PDisk) (segs' : List (List RB)) (j : Nat) : segs'.flatten = d.segs.flatten → PStep d { d with segs := segs', junk := j }
+  | restart (d : PDisk) : PStep d { d with junk := 0 }
+  | close (d : PDisk) : d.junk = 0 →
+      PStep d { d with snap := some (((d.segs.filter (fun s => !s.isEmpty)).map rbBytes), d.count) }
+
+inductive PReach : PDisk → Prop
+  | init : PReach {}
+  | step {d d'} : PReach d → PStep d d' → PReach d'
 
 end Model.C33
